@@ -1312,6 +1312,24 @@ pub fn world_b_spoof(property: &str, scenario: &str, seed: u64, run: u64, thorou
             }
         }
     }
+    if run >= 10_000 && run % 2 == 0 {
+        // (runs added later) the first spoofable address does nothing but this: one valid,
+        // fully padded request, then 500-900 repeats of the same request (same nonce) in
+        // frames of 22-24 bytes - CRC-valid, undersized - within the time the handshake stays
+        // pending: were each of them answered with a 25-byte SYN-ACK, the head start of the
+        // first 1472 bytes would be used up after 491 of them
+        let mut r = Rng::keyed(&[seed, run, 0x18_0021]);
+        let raw = topo.raws[0];
+        plan.timeline.retain(|t| !matches!(&t.op, Op::Inject { from, .. } if *from == raw));
+        let x = r.u32();
+        let mut t = r.range(100_000, 3_000_000);
+        plan.push(t, 0x8000_0002, Op::Inject { to: 0, from: raw, bytes: enc_syn(3, x, 2_000_000, 1000, 1_000_000, 1472), twin: false });
+        t += r.range(1000, 300_000);
+        for _ in 0..r.range(500, 900) {
+            plan.push(t, 0x8000_0002, Op::Inject { to: 0, from: raw, bytes: enc_syn(3, x, 2_000_000, 1000, 1_000_000, *r.pick(&[22usize, 22, 22, 23, 24])), twin: false });
+            t += r.range(0, 35_000);
+        }
+    }
     plan.end_us = horizon;
     plan.sort();
     plan
@@ -1666,7 +1684,16 @@ pub fn world_b_silence(property: &str, scenario: &str, seed: u64, run: u64, thor
     });
     plan.push(0, 0, Op::Create { ep: 0 });
     let latency = sample_latency(&mut r).min(100_000);
-    plan.push(0, 2, Op::Link { from: None, to: None, rule: clean_rule(latency) });
+    if run >= 3000 && run % 2 == 1 {
+        // (runs added later) a network that duplicates: copies arrive up to 3 s after the
+        // original, often as the last thing heard from a peer that has nothing more to say
+        let mut rd = Rng::keyed(&[seed, run, 0xd0b1e]);
+        let mut rule = clean_rule(latency);
+        rule.dup_p = *rd.pick(&[0.2, 0.5, 1.0]);
+        plan.push(0, 2, Op::Link { from: None, to: None, rule });
+    } else {
+        plan.push(0, 2, Op::Link { from: None, to: None, rule: clean_rule(latency) });
+    }
     let horizon = r.range(30, if thorough { 120 } else { 70 }) * 1_000_000;
     // swept: the handshake loses its first k SYNs (even runs) or SYN-ACKs (odd runs), k = 0..10
     let k = (run / 2) % 11;
